@@ -1,18 +1,17 @@
 """MOCKAD for C09 — recording mock atomic-data provider with arbitrary positive, smooth rate functions.
 
 Every rate is  c * (n_e/1e19)^a * (T_e/100)^b  with (c, a, b) derived deterministically (SHA-1) from the lookup key
-(kind, species name(s), charge(s)) and a per-case integer `salt`, c log-uniform over six decades [1e-19, 1e-13] m^3/s.
+(kind, species name(s), charge(s)) and the per-case parameter triple  par = (salt, decades, logc_mid):
+log10 c is uniform in [logc_mid - decades/2, logc_mid + decades/2], a in [-0.2, 0.2], b in [-1, 1].
 A wrong species, a swapped charge, swapped donor/receiver, swapped (n_e, T_e) or a rate of the wrong kind all change
-the number.  `rate_value` is the pure-Python reference used by the oracle; it does not import cherab.  The cherab-facing
-classes (MockAtomicData and the three rate subclasses) are created lazily by `make_atomic_data` so that importing this
-module never imports cherab (the framework must redirect `cherab` to scratch copies first).
+the number.  `rate_value` / `exact_fractions` are the pure-Python reference used by the oracle; nothing at module level
+imports cherab (the framework must redirect `cherab` to scratch copies first): the cherab-facing classes are created
+lazily by `make_atomic_data`.
 """
+import functools
 import hashlib
 import math
 import struct
-
-DECADES = 6.0
-C_LOW = -19.0
 
 
 def _u(kind, key, salt, n):
@@ -28,23 +27,20 @@ def _u(kind, key, salt, n):
     return out[:n]
 
 
-def rate_params(kind, key, salt, decades=DECADES):
+@functools.lru_cache(maxsize=4096)
+def rate_params(kind, key, par):
+    salt, decades, logc_mid = par
     u = _u(kind, key, salt, 3)
-    logc = C_LOW + decades * u[0] + (6.0 - decades) / 2.0
-    a = -0.3 + 0.6 * u[1]
-    b = -1.5 + 3.0 * u[2]
+    logc = logc_mid + decades * (u[0] - 0.5)
+    a = -0.2 + 0.4 * u[1]
+    b = -1.0 + 2.0 * u[2]
     return logc, a, b
 
 
-def rate_value(kind, key, salt, ne, te, decades=DECADES):
+def rate_value(kind, key, par, ne, te):
     """kind in {'ion','rec','tcx'}; key = (element_name, charge) or (donor_name, donor_charge, receiver_name, charge)."""
-    logc, a, b = rate_params(kind, key, salt, decades)
+    logc, a, b = rate_params(kind, tuple(key), tuple(par))
     return 10.0 ** logc * (ne / 1e19) ** a * (te / 100.0) ** b
-
-
-def log_rate_value(kind, key, salt, ne, te, decades=DECADES):
-    logc, a, b = rate_params(kind, key, salt, decades)
-    return logc * math.log(10.0) + a * math.log(ne / 1e19) + b * math.log(te / 100.0)
 
 
 _CLASSES = {}
@@ -65,21 +61,18 @@ def _build_classes():
 
             def evaluate(self, density, temperature):
                 self.owner.n_eval += 1
-                self.owner.last_args[(self.kind,) + tuple(self.key)] = (density, temperature)
-                return rate_value(self.kind, self.key, self.owner.salt, density, temperature, self.owner.decades)
+                return rate_value(self.kind, self.key, self.owner.par, density, temperature)
         _Rate.__name__ = "Mock" + base.__name__
         return _Rate
 
     MI, MR, MC = mk(IonisationRate, "ion"), mk(RecombinationRate, "rec"), mk(ThermalCXRate, "tcx")
 
     class MockAtomicData(AtomicData):
-        def __init__(self, salt, decades=DECADES):
+        def __init__(self, par):
             super().__init__()
-            self.salt = int(salt)
-            self.decades = float(decades)
+            self.par = (int(par[0]), float(par[1]), float(par[2]))
             self.events = []
             self.n_eval = 0
-            self.last_args = {}
 
         def ionisation_rate(self, ion, charge):
             self.events.append(("ionisation_rate", ion.name, int(charge)))
@@ -97,22 +90,21 @@ def _build_classes():
     return _CLASSES
 
 
-def make_atomic_data(salt, decades=DECADES):
-    return _build_classes()["MockAtomicData"](salt, decades)
+def make_atomic_data(par):
+    return _build_classes()["MockAtomicData"](par)
 
 
-def exact_fractions(element_name, Z, salt, ne, te, donor=None, nd=0.0, decades=DECADES):
-    """Exact steady-state solution by the two-term recurrence, in log space (no overflow for any positive rates).
-
-    donor = (donor_name, donor_charge) or None.  Returns (fractions[0..Z], S[0..Z-1], R[1..Z] as list index z-1)
-    """
+def exact_fractions(element_name, Z, par, ne, te, donor=None, nd=0.0):
+    """Exact steady-state solution by the two-term recurrence f_{z+1} = f_z S_z / R_{z+1}, in log space
+    (no overflow / underflow for any positive rates).  donor = (donor_name, donor_charge) or None.
+    Returns (fractions[0..Z], S[z] for z=0..Z-1, R[z] = alpha_{z+1} + (nd/ne) C_{z+1} for z=0..Z-1)."""
     logr = [0.0]
     S, R = [], []
     for z in range(Z):
-        s = rate_value("ion", (element_name, z), salt, ne, te, decades)
-        r = rate_value("rec", (element_name, z + 1), salt, ne, te, decades)
+        s = rate_value("ion", (element_name, z), par, ne, te)
+        r = rate_value("rec", (element_name, z + 1), par, ne, te)
         if donor is not None:
-            r = r + (nd / ne) * rate_value("tcx", (donor[0], int(donor[1]), element_name, z + 1), salt, ne, te, decades)
+            r = r + (nd / ne) * rate_value("tcx", (donor[0], int(donor[1]), element_name, z + 1), par, ne, te)
         S.append(s)
         R.append(r)
         logr.append(logr[-1] + math.log(s) - math.log(r))
